@@ -95,12 +95,19 @@ def readSig (line : Str) : Option SigEntity :=
          head := (splitOnChar ' ' headText).filter (fun (w : Str) => !w.isEmpty) }
 
 /-- the clauses of C20 for a function-like descriptor, evaluated on rendered text -/
-def holdsC20_fn (declText defText : Str) (scope : Option Str) (initialised : Bool) : List String :=
+def holdsC20_fn (declText defText : Str) (scope : Option Str) (initialised : Bool)
+    (described : Option (List (Option Str)) := none) : List String :=
   let declLines := splitlines declText
   let defLines := splitlines defText
   match declLines.head? >>= readSig with
   | none => ["decl-unreadable"]
   | some d =>
+    -- the declaration carries exactly the described default values (an empty default is no default)
+    (match described with
+     | none => []
+     | some ds =>
+       let want := ds.map fun o => match o with | some v => if v.isEmpty then none else some v | none => none
+       if d.defaults = want then [] else ["default-value-not-as-described"]) ++
     if initialised then (if defText.isEmpty then [] else ["definition-despite-initialisation"]) else
     match defLines.head? >>= readSig with
     | none => ["def-unreadable"]
